@@ -888,8 +888,17 @@ func solveWith(query string, mode string, timeout int, thorough bool, expectSat 
 	r := &SolveResult{Status: "unknown", AllTimes: map[string]float64{}, Detail: map[string]string{}, Query: query}
 	got := 0
 	var definite *res
+	var grace <-chan time.Time
 	for got < len(cfgs) {
-		x := <-ch
+		var x res
+		select {
+		case x = <-ch:
+		case <-grace:
+			// thorough: the other solvers had their time to contradict the first definite answer
+			cancel()
+			got = len(cfgs)
+			continue
+		}
 		got++
 		r.AllTimes[x.cfg.name] = x.t
 		r.Detail[x.cfg.name] = x.status
@@ -902,6 +911,13 @@ func solveWith(query string, mode string, timeout int, thorough bool, expectSat 
 				definite = &xx
 				if !thorough {
 					cancel()
+				} else if grace == nil {
+					// cross-check window: three times what the first answer took, at least 2 s, at most 15 s
+					w := time.Duration(3*xx.t*float64(time.Second)) + 2*time.Second
+					if w > 15*time.Second {
+						w = 15 * time.Second
+					}
+					grace = time.After(w)
 				}
 			} else if thorough && definite.status != x.status && (x.status == "sat" || x.status == "unsat") {
 				r.Status = "error"
